@@ -202,8 +202,11 @@ class StmtMixin(object):
 
   def assign(self, t, v, st):
     if isinstance(t, ast.Name):
-      env = dict(st.env) if False else st.env
-      env[t.id] = v
+      lt = self.contract.locals_.get(t.id) if self.contract is not None and self.inline_depth == 0 else None
+      if lt is not None and isinstance(v, VRef) and v.ty.kind in ('any', 'opt', 'union'):
+        v = from_u(v.t, parse_type(lt), st)   # declared type of a local (sidecar): dispatch hint only
+        ops.assume_type(v, st)
+      st.env[t.id] = v
       yield 'normal', st, None
     elif isinstance(t, (ast.Tuple, ast.List)):
       items = self.unpack(v, len(t.elts), st)
@@ -574,7 +577,9 @@ class StmtMixin(object):
         st.heap = st.heap.havoc(sorted(comps, key=str))
         if 'alloc' in comps:
           o = z3.Const(fresh_name('o'), U)
-          st.assume(z3.ForAll([o], z3.Implies(entry_heap.alloc(o), st.heap.alloc(o))))
+          st.assume(ForAllT([o], z3.Implies(entry_heap.alloc(o), st.heap.alloc(o))))
+    ops.heap_wf(st, st.heap, getattr(self, 'ref_fields', ()), getattr(self, 'field_kinds', None), getattr(self, 'value_kinds', None))
+    self.private_unreferenced(st)
     # re-establish well-typedness facts for havocked references
     for nm in names:
       v = st.env.get(nm)
@@ -608,7 +613,8 @@ class StmtMixin(object):
   def check_inv(self, tag, key, spec, st, ghost, entry_env, entry_heap):
     for i, inv in enumerate(spec.get('inv', ())):
       cx = self.inv_ctx(st, ghost, entry_env, entry_heap)
-      self.oblige('loop%s/inv%d/%s' % (key, i, tag), st, self.spec_bool(inv, cx), detail=inv)
+      self.oblige('loop%s/inv%d/%s' % (key, i, tag), st, self.spec_bool(inv, cx), detail=inv,
+                  assume_after=False)
 
   def assume_inv(self, spec, st, ghost, entry_env, entry_heap):
     for inv in spec.get('inv', ()):
@@ -744,13 +750,14 @@ class StmtMixin(object):
     D = ufn(fresh_name('done'), U, B)
     x = fresh('elem', U)
     e = z3.Const(fresh_name('e'), U)
-    h.assume(z3.ForAll([e], z3.Implies(D(e), pred0(e))))
+    h.assume(ForAllT([e], z3.Implies(D(e), pred0(e))))
     done = VSetExpr(lambda y: D(y))
     self.assume_inv(spec, h, {'_done': done}, entry_env, entry_heap)
     h.assume(pred0(x))
     h.assume(z3.Not(D(x)))
     if self.feasible(h):
       item = bind(x, h)
+      ops.assume_type(item, h)
       for k0, st1, v0 in list(self.assign(s.target, item, h)):
         if k0 != 'normal':
           yield k0, st1, v0
